@@ -1312,6 +1312,8 @@ char* g_arena_lo = nullptr;
 char* g_arena_cur = nullptr;
 char* g_arena_hi = nullptr;
 bool g_no_reuse = false;
+char* g_arena_top = nullptr;  // blocks handed out downwards from the end
+bool g_arena_down = false;
 
 void* ArenaAlloc(std::size_t size) {
   if (g_arena_lo == nullptr) {
@@ -1321,14 +1323,19 @@ void* ArenaAlloc(std::size_t size) {
       std::abort();
     }
     g_arena_lo = g_arena_cur = static_cast<char*>(m);
-    g_arena_hi = g_arena_lo + cap;
+    g_arena_hi = g_arena_top = g_arena_lo + cap;
   }
   size = (size + 15) & ~std::size_t{15};
   if (size == 0) {
     size = 16;
   }
-  if (g_arena_cur + size > g_arena_hi) {
+  if (g_arena_cur + size > g_arena_top) {
     std::abort();
+  }
+  if (g_arena_down) {
+    // descending addresses: whatever orders objects by address sees the opposite order, nothing is ever reused
+    g_arena_top -= size;
+    return g_arena_top;
   }
   void* p = g_arena_cur;
   g_arena_cur += size;
@@ -1386,8 +1393,9 @@ void VrtFree(void* p) noexcept {
 
 namespace vrt {
 
-void SetNoReuseHeap(bool on) {
+void SetNoReuseHeap(bool on, bool descending) {
   g_no_reuse = on;
+  g_arena_down = descending;
 }
 
 }  // namespace vrt
